@@ -92,13 +92,18 @@ fn handle(line: &str) -> Result<String, String> {
             Ok(out.join(" ; "))
         }
         // ---- C06 ---------------------------------------------------------------------------
-        "fen" => match fen::parse(f[1]) {
+        "fen" => match fen::parse(&f[1..].join("\t")) {
             Ok(g) => Ok(format!("ok {} W={}", dump_game(&g), fen::write(&g))),
             Err(_) => Ok("err".to_string()),
         },
-        "fenwrite" => {
-            let g = read_position(f[1])?;
-            Ok(fen::write(&g))
+        "fenrt" => {
+            let g0 = read_position(f[1])?;
+            let w = fen::write(&g0);
+            let g1 = match fen::parse(&w) {
+                Ok(g) => format!("ok {} W={}", dump_game(&g), fen::write(&g)),
+                Err(_) => "err".to_string(),
+            };
+            Ok(format!("W={w} G0={} G1={g1}", dump_game(&g0)))
         }
         other => Err(format!("unknown request {other}")),
     }
